@@ -2,11 +2,12 @@
 """Run every claimed check (props/claimed.txt) on /repo, a few in parallel; print one line per check.  usage: tools/run_claimed.py [ids...]"""
 import sys, os, subprocess, time, concurrent.futures as cf
 V = os.path.dirname(os.path.dirname(os.path.abspath(__file__)))
+TIER = os.environ.get('TIER', 'quick')
 ids = sys.argv[1:] or open(os.path.join(V, 'props', 'claimed.txt')).read().split()
 def one(pid):
     t = time.time()
     env = dict(os.environ); env.pop('VERIF_REPO', None)
-    r = subprocess.run([os.path.join(V, 'check'), pid], stdout=subprocess.PIPE, stderr=subprocess.STDOUT, universal_newlines=True, cwd=V, env=env)
+    r = subprocess.run([os.path.join(V, 'check'), pid, '--tier', TIER], stdout=subprocess.PIPE, stderr=subprocess.STDOUT, universal_newlines=True, cwd=V, env=env)
     lines = [l for l in r.stdout.split('\n') if l.startswith(('OK', 'VIOLATION', 'KNOWN'))]
     return pid, r.returncode, time.time() - t, lines
 with cf.ThreadPoolExecutor(max_workers=int(os.environ.get('JOBS', '3'))) as ex:
